@@ -160,12 +160,19 @@ CLAIMED.update({
         "go/types + go/ssa of x/tools v0.29.0; SPZ/splat layouts frozen from the published formats.",
         "DESIGN.md 4 C15; checker/props/c15/REPORT.md",
     ),
+    "C19": (
+        "symbolic interpretation of go/ssa (constructor, then the returned closure on a symbolic sample point) with polynomial / rational normal forms; path x reference-case comparison against the published closed forms; loop-carried accumulator recognition for the n-ary operators; parameter-reach dataflow",
+        "Decides a necessary structural clause, not sign / Lipschitz / exactness themselves (those are properties of the published closed forms, the trusted base): every primitive in math/sdf (Sphere, Box, RoundedBox, Line, Plane, RoundedCylinder, RoundedCone) computes, on every path, exactly the published closed form (Quilez) as a polynomial / rational identity in its parameters and the sample point (SDF-FORM); "
+        "Union / Intersect are min / max over exactly all fields (fixed-arity paths and the n-ary accumulator loop from field 0 or +-Inf, step 1, no early exit), Subtract = max(a, -b), Translate(f,t)(p) = f(p - t) (SDF-OP); every parameter component and all three sample components reach the result (SDF-DEP). "
+        "RoundedBox: both published round-box forms (offset by r, or shrunk by r then offset) are accepted - the property does not fix the size convention. Not covered: rounding/NaN, degenerate segments, non-unit plane normals, VarryingThicknessLine.",
+        "go/types + go/ssa of x/tools v0.29.0; real arithmetic; sqrt/abs/min/max with their algebraic laws only; published forms transcribed in checker/props/c19/refs.go.",
+        "DESIGN.md 4 C19, 5; checker/props/c19/REPORT.md",
+    ),
 })
 
 NOT_YET = "check not built yet in this round (design in DESIGN.md section 4); not claimed until its rules run clean on the tree"
 NOT_APPLICABLE = {
     "C18": "closure/winding/volume of generated index patterns needs a symbolic edge-pairing proof over all row/column/side counts plus numeric volume; no sound static rule in reach (DESIGN.md §5)",
-    "C19": "sign exactness, 1-Lipschitz bound and Euclidean exactness are statements about real-valued closed forms; the only structural clause covers 2 of 10 anchored files (DESIGN.md §5)",
     "C20": "empty-circumcircle / non-overlap / winding depend on run-time geometry of the insertion history; no structural necessary condition beyond the trivial one (DESIGN.md §5)",
 }
 
